@@ -453,6 +453,18 @@ INIT_FORMS = {
         "(IMarkingDefinition V20)",
 }
 
+# the same three forms with `x is not None and kwargs.get('x') is None` in place of the truthiness tests
+# (proposed fix C03-positional-argument-falsy-value-dropped); which one the code matches is detected at run
+# time (variant vr_positional_none)
+for _src, _term in list(INIT_FORMS.items()):
+    if _term.startswith("(IPositional"):
+        _fixed = _src
+        for _n in ("source_ref", "relationship_type", "target_ref", "sighting_of_ref", "statement"):
+            _fixed = _fixed.replace("if %s and (not kwargs.get('%s')):" % (_n, _n),
+                                    "if %s is not None and kwargs.get('%s') is None:" % (_n, _n))
+        assert _fixed != _src
+        INIT_FORMS[_fixed] = _term
+
 SERIALIZE_TLP = ("(self, pretty=False, include_optional_defaults=False, **kwargs)\ncheck_tlp_marking(self, '%s')\n"
                  "return super(MarkingDefinition, self).serialize(pretty, include_optional_defaults, **kwargs)")
 
